@@ -9,7 +9,7 @@ Deepening (quick tier only, no explicit --seed/--replay): every run hashes the s
 (vermouth/**/*.py outside tests, vermouth/data/**, bin/*) and compares them with harness/repo_baseline.json
 (written by tools/repo_baseline.py after every commit to /repo made by this project).  When some file
 differs - somebody changed the code - and the seed-0 stream found nothing, the same check is repeated with
-further seeds (1..VERIF_ESCALATE_SEEDS, default 3, run concurrently), i.e. with independent generated
+further seeds (VERIF_SEED+1 .. VERIF_SEED+VERIF_ESCALATE_SEEDS, default 3 of them, run concurrently), i.e. with independent generated
 streams.  A violation found by any of them is reported exactly as the harness reports it (VIOLATION line with
 its replay, exit 1) and its evidence file replaces the seed-0 one.  On the unchanged tree nothing is added:
 no extra time, no extra output.  The extra streams are the same generators whose seeds 0-4 are run on the
@@ -72,8 +72,11 @@ def main():
     tier = os.environ.get('VERIF_TIER', 'quick')
     if '--tier' in rest:
         tier = rest[rest.index('--tier') + 1]
-    plain = ('--seed' in rest or '--replay' in rest or tier != 'quick'
-             or os.environ.get('VERIF_NO_ESCALATE') == '1' or 'VERIF_SEED' in os.environ)
+    plain = ('--seed' in rest or '--replay' in rest or tier != 'quick' or os.environ.get('VERIF_NO_ESCALATE') == '1')
+    try:
+        base_seed = int(os.environ.get('VERIF_SEED', '0'))   # the seed of the ordinary run (the harness reads it too)
+    except ValueError:
+        base_seed = 0
     rc = subprocess.call(base_cmd + rest, cwd=HERE)
     if plain or rc != 0:
         sys.exit(rc)
@@ -84,7 +87,7 @@ def main():
     print('%s: %d source file(s) differ from the validated baseline (%s%s): deepening the search with %d further '
           'seeds' % (pid, len(changed), ', '.join(changed[:4]), ', ...' if len(changed) > 4 else '', n), flush=True)
     procs = []
-    for s in range(1, n + 1):
+    for s in range(base_seed + 1, base_seed + n + 1):
         evdir = os.path.join(VERIF, 'replays', 'evidence_escalation', 'seed%d' % s)
         os.makedirs(evdir, exist_ok=True)
         env = dict(os.environ, VERIF_EVIDENCE_DIR=evdir, VERIF_ANCHOR_COV='0')
